@@ -292,7 +292,18 @@ func render(s snippet.Snippet) (out string, panicked bool, pv any) {
 	var buf bytes.Buffer
 	w, _ := newWriter(&buf)
 	panicked, pv, _ = core.Guard(func() { w.Render(s) })
-	return buf.String(), panicked, pv
+	out = buf.String()
+	if !panicked {
+		// rendering is repeatable: the same snippet value rendered again (same writer) appends the same bytes
+		before := buf.Len()
+		if pk2, pv2, _ := core.Guard(func() { w.Render(s) }); pk2 {
+			return out + fmt.Sprintf("\x00<second rendering of the same snippet panicked: %v>", pv2), false, nil
+		}
+		if second := buf.String()[before:]; second != out {
+			return out + fmt.Sprintf("\x00<second rendering of the same snippet gave %q>", second), false, nil
+		}
+	}
+	return out, panicked, pv
 }
 
 type tInput struct {
